@@ -89,6 +89,10 @@ def r2_for(ctx: Ctx) -> None:
                   "bound in the iteration's own scope (after use_next_scope) and before the body is expanded, unconditionally")
     gens = [c for c in calls_in(lp) if call_name(c) == "_code_gen"]
     ctx.check(len(gens) == 1 and unparse(gens[0].args[0]) == "node.body.body", "generate_for:body-once", "the body is expanded once per iteration")
+    top = [s for s in lp.body if any(x is g for g in gens for x in ast.walk(s))]
+    ok = len(top) == 1 and isinstance(top[0], ast.AugAssign) and unparse(top[0].target) == "code" and top[0].value is gens[0]
+    ctx.check(ok, "generate_for:body-every-iteration", "the expansion `code += _code_gen(node.body.body, ...)` is an unconditional statement of the loop body: each iteration "
+              "expands the body afresh in its own scope (a cached node list would replay the first iteration's scopes)")
     apps = [c for c in calls_in(lp) if (call_name(c) or "").endswith("append_internal_scope")]
     ctx.check(len(apps) == 1, "generate_for:internal-scope", "each iteration has its own internal scope (its labels are not exported to the symbol file)")
     ctx.count("for_facts", 8)
